@@ -41,6 +41,10 @@ impl fmt::Debug for TaskManager {
 	}
 }
 
+/// How many consecutive level compactions may leave a stalled L0 as it is before the
+/// level task stops re-arming itself and waits for the next external wake-up.
+const MAX_ROUNDS_WITHOUT_L0_PROGRESS: usize = 16;
+
 /// Clears a task's `running` flag when dropped, which includes the task
 /// unwinding from a panic in flush / compaction: `stop()` waits for the flag
 /// without a time limit, so a flag left set would block `close()` for ever.
@@ -146,6 +150,11 @@ impl TaskManager {
 			let write_stall = Arc::clone(&write_stall);
 
 			let handle = tokio::spawn(async move {
+				// Consecutive compactions that left L0 at its stall limit without
+				// shrinking it (see below).
+				let mut rounds_without_l0_progress = 0;
+				let mut l0_files_before = usize::MAX;
+
 				loop {
 					// Wait for notification
 					notify.notified().await;
@@ -168,6 +177,30 @@ impl TaskManager {
 					} else {
 						log::debug!("Level compaction completed successfully");
 						write_stall.signal_work_done();
+
+						// One compaction per wake-up is not enough when L0 sits at its stall
+						// limit: the strategy may have picked another, higher-scoring level,
+						// and writers stalled on the L0 count cause no flush that would wake
+						// this task again. Keep going until L0 is below the limit. A few
+						// rounds that do not shrink L0 are normal (other levels drain
+						// first); more than that cannot be helped from here.
+						match write_stall.l0_files_at_stall_limit() {
+							Some(l0_files) => {
+								if l0_files < l0_files_before {
+									rounds_without_l0_progress = 0;
+								} else {
+									rounds_without_l0_progress += 1;
+								}
+								l0_files_before = l0_files;
+								if rounds_without_l0_progress <= MAX_ROUNDS_WITHOUT_L0_PROGRESS {
+									notify.notify_one();
+								}
+							}
+							None => {
+								rounds_without_l0_progress = 0;
+								l0_files_before = usize::MAX;
+							}
+						}
 					}
 					drop(running_guard);
 				}
